@@ -1,0 +1,18 @@
+//! Verification hooks (property C20): the dendrogram steps `kodama::linkage` returns for a
+//! kernel, with the same similarity -> distance transformation `transform` applies.
+//! Compiled only with `--cfg linfa_verif`.
+use kodama::{linkage, Method};
+use linfa::Float;
+use linfa_kernel::Kernel;
+
+/// `(cluster1, cluster2, dissimilarity)` per merge step
+pub fn linkage_steps<F: Float>(kernel: &Kernel<F>, method: Method) -> Vec<(usize, usize, F)> {
+    let threshold = F::cast(1e-6);
+    let mut distance = kernel
+        .to_upper_triangle()
+        .into_iter()
+        .map(|x| if x > threshold { -x.ln() } else { -threshold.ln() })
+        .collect::<Vec<_>>();
+    let res = linkage(&mut distance, kernel.size(), method);
+    res.steps().iter().map(|s| (s.cluster1, s.cluster2, s.dissimilarity)).collect()
+}
